@@ -754,3 +754,54 @@ func init() {
 		mutant{"profile-page-window-wraps", "internal/mcp/service.go", "\tif limit > len(ids)-start {\n\t\tlimit = len(ids) - start\n\t}\n", "", "GRD-alloc", "Service.ListUserProfiles:bound"},
 	)
 }
+
+func init() {
+	addMutants("C04",
+		mutant{"evolve-copies-its-own-marker", "pkg/engine/ops.go", "\t\tif k == \"_is_historical\" {\n\t\t\tcontinue\n\t\t}\n", "", "EFF-evolve-flag", "marker-not-copied"},
+		mutant{"dimension-read-from-a-live-node-only", "pkg/core/hnsw/hnsw_index.go", "\tif h.vectorDim > 0 {\n\t\treturn h.vectorDim\n\t}\n", "", "GRD-dimension", "dimension-survives-the-last-delete"},
+	)
+}
+
+func init() {
+	m := mutant{"closed-and-enqueue-decided-in-one-select", "pkg/persistence/lazy_aof.go", "\tselect {\n\tcase <-lw.closedCh:\n\t\treturn fmt.Errorf(\"cannot write to closed LazyAOFWriter\")\n\tdefault:\n\t}\n", "", "ORD-14", "closed-tested-first"}
+	addMutants("C13", m)
+	addMutants("C14", m)
+	addMutants("C14",
+		mutant{"snapshot-copies-the-id-map-in-a-second-section", "pkg/core/hnsw/hnsw_index.go", "\tcounterAtCut := uint32(h.nodeCounter.Load())\n\tentrypointAtCut := uint32(h.entrypointID.Load())\n\tmaxLevelAtCut := int(h.maxLevel.Load())\n\th.metaMu.RUnlock()\n", "\th.metaMu.RUnlock()\n\th.metaMu.RLock()\n\tcounterAtCut := uint32(h.nodeCounter.Load())\n\tentrypointAtCut := uint32(h.entrypointID.Load())\n\tmaxLevelAtCut := int(h.maxLevel.Load())\n\th.metaMu.RUnlock()\n", "CDC-14", "nodeCounter:read-at-the-cut"},
+	)
+	addMutants("C07",
+		mutant{"m-equal-one-accepted", "pkg/core/hnsw/hnsw_index.go", "\tif m == 1 {\n\t\treturn fmt.Errorf(\"invalid index parameters: m must be at least 2 (or 0 for the default), got 1\")\n\t}\n", "", "GRD-levelmult", "rejects-m-equal-1"},
+	)
+}
+
+func init() {
+	m := mutant{"delete-without-the-metadata-lock", "pkg/engine/ops.go", "\tmetaLock := e.getMetadataLockShard(internalID)\n\tmetaLock.Lock()\n\tidx.Delete(id)\n", "\tmetaLock := e.getMetadataLockShard(internalID)\n\tidx.Delete(id)\n\tmetaLock.Lock()\n", "LCK-10", "VDelete:deletes-under"}
+	addMutants("C13", m)
+	addMutants("C09", m)
+	addMutants("C13",
+		mutant{"setmetadata-trusts-its-first-look-up", "pkg/engine/ops.go", "\tif cur, still := hnswIdx.GetInternalID(id); !still || cur != internalID {\n\t\treturn fmt.Errorf(\"node not found\")\n\t}\n", "", "LCK-10", "VSetMetadata:node-looked-up-again"},
+	)
+}
+
+func init() {
+	m := mutant{"link-replayed-on-top-of-itself-adds-a-version", "pkg/core/graph.go", "\tif hasVersionCreatedAt(outList, targetID, timestamp) {\n\t\treturn\n\t}\n", "", "CDC-15", "DB.AddEdge:no-change"}
+	addMutants("C10", m)
+	addMutants("C14", m)
+}
+
+func init() {
+	addMutants("C15",
+		mutant{"negative-access-count-reaches-the-logarithm", "pkg/engine/search_utils.go", "\tif accessCount < 0 {\n\t\taccessCount = 0\n\t}\n", "", "GRD-logarg", "count-not-negative"},
+	)
+}
+
+func init() {
+	addMutants("C16",
+		mutant{"profiling-routes-open-to-any-token", "internal/server/middleware.go", " || strings.HasPrefix(path, \"/debug/\") {", " {", "WEB-11", "admin-only"},
+	)
+}
+
+func init() {
+	m := mutant{"path-search-runs-all-its-rounds", "pkg/engine/pathfinding.go", "\t\tif len(fwdQueue) == 0 && len(bwdQueue) == 0 {\n\t\t\tbreak\n\t\t}\n", "", "GRD-path-exhausted", "ends-with-empty-frontiers"}
+	addMutants("C11", m)
+}
